@@ -1381,6 +1381,9 @@ MUTATORS = [
 FAMILIES = sorted(set(f for _, _, f in MUTATORS))
 
 
+MUTANT_CORPUS = "C04-mutant-corpus-v1"
+
+
 def mutate(prog, rng):
     """-> (kind, family, mutated Program) or None.  Exactly one mutation (a key names the family of the mutation)."""
     p = mutable_program(prog)
@@ -1635,7 +1638,11 @@ def run(ctx):
         nmut = ctx.n(1500, 15000)
         nnative = ctx.n(300, 3000)
         per_base = 10
-        bases = batch[:max(1, (nmut + per_base - 1) // per_base)]
+        # The mutant corpus does not depend on VERIF_SEED.  Ill-formed programs the checker accepts are an open-ended class
+        # (findings/C04/known.json lists the members this corpus reaches): a corpus redrawn per seed would report a further
+        # member of the same listed class on every fresh seed, which tells nothing about a change to the tree.  VERIF_SEED
+        # varies the well-formed sweep (1); the ill-formed side is a fixed regression corpus whose key set is closed.
+        bases = sweep.gen_batch(ctx, max(1, (nmut + per_base - 1) // per_base), label="mutbase", fixed=MUTANT_CORPUS)
         muts = []
         seen_text = set()
         for i, prog, exp in bases:
@@ -1644,7 +1651,7 @@ def run(ctx):
             for j in range(per_base * 2):
                 if sum(1 for m in muts if m[0] == i) >= per_base or len(muts) >= nmut:
                     break
-                res = mutate(prog, ctx.rng("mut", i, j))
+                res = mutate(prog, sweep.fixed_rng(MUTANT_CORPUS, "mut", i, j))
                 if res is None:
                     continue
                 kind, family, mp = res
@@ -1700,7 +1707,7 @@ def run(ctx):
         for a in accepted:
             by_kind.setdefault(a[2], []).append(a)
         order = []
-        rr = ctx.rng("native-sample")
+        rr = sweep.fixed_rng(MUTANT_CORPUS, "native-sample")
         pools = [by_kind[k] for k in sorted(by_kind)]
         for p_ in pools:
             rr.shuffle(p_)
